@@ -479,7 +479,7 @@ func (c *Ctx) runItem(it Item) *ItemResult {
 				e.solver.Done()
 			}
 		}()
-		msgLevel := !strings.Contains(it.ID, "prim") && !strings.Contains(it.ID, ":C") && !strings.HasPrefix(it.ID, "stream") && !strings.HasPrefix(it.ID, "lemmas") && !strings.HasPrefix(it.ID, "pattern") && !strings.HasPrefix(it.ID, "seq:") && !strings.HasPrefix(it.ID, "sched:")
+		msgLevel := !strings.Contains(it.ID, "prim") && !strings.Contains(it.ID, ":C") && !strings.HasPrefix(it.ID, "stream") && !strings.HasPrefix(it.ID, "lemmas") && !strings.HasPrefix(it.ID, "pattern") && !strings.HasPrefix(it.ID, "seq:") && !strings.HasPrefix(it.ID, "sched:") && !strings.HasPrefix(it.ID, "arbmsg:")
 		if msgLevel {
 			e.symLoopLimit = 3
 		}
